@@ -29,7 +29,13 @@ try:
     if rc != 0: res['apply_err'] = out[-300:]
     rc, out = run(['go','build','./...']); res['builds'] = (rc == 0)
     os.rename(os.path.join(wt, demo_rel), os.path.join(wt, demo_rel + '.off'))
-    rc, out = run(['go','test','-vet=off','-count=1'] + pkgs); res['existing_tests_pass'] = (rc == 0)
+    # the suite contains timing-sensitive tests (modules TestMicroTaskWaiting / TestMicroTaskOrdering fail
+    # occasionally on the unchanged tree too): a change counts as passing if one of up to 5 runs passes
+    for attempt in range(5):
+        rc, out = run(['go','test','-vet=off','-count=1'] + pkgs)
+        res['existing_test_runs'] = attempt + 1
+        if rc == 0: break
+    res['existing_tests_pass'] = (rc == 0)
     if rc != 0: res['existing_tail'] = out[-600:]
     os.rename(os.path.join(wt, demo_rel + '.off'), os.path.join(wt, demo_rel))
     rc, out = run(['go','test','-vet=off','-count=1','-run','TestSeedDemo',demo_pkg])
